@@ -20,3 +20,5 @@ pub mod c12;
 pub mod c16;
 #[cfg(any(feature = "c17", not(kani)))]
 pub mod c17;
+#[cfg(any(feature = "c19", not(kani)))]
+pub mod c19;
